@@ -20,7 +20,6 @@ ASSUME = ["tskit's tables satisfy valid_tablesb (checked inside Coq on every inp
           "numba compiles the kernels as written (asserts included)"]
 
 K8_SIG = "blocks:lone-edge"
-S1_SIG = "blocks:individuals_block-oob"
 
 
 # ---------------------------------------------------------------- implementation side
@@ -106,7 +105,7 @@ def model_counts(v):
 
 def model_blocks(v):
     if v[0] == "inl":
-        return {1: "assert", 2: "index-error"}.get(v[1], "model-error-%r" % (v[1],))
+        return {1: "assert"}.get(v[1], "model-error-%r" % (v[1],))
     stats, bedges, mblock = v[1]
     st = []
     for c, sp in stats:
@@ -153,10 +152,8 @@ def make_item(rng, jit=False):
     for ind in ts.individuals():
         ok = len(ind.nodes) == 2 and all(ts.nodes_time[u] == 0 for u in ind.nodes)
         unphased.append(bool(ok and rng.random() < 0.75))
-    if jit:
-        # finding S1: individuals_block is sized by num_edges; under the JIT the out-of-bounds
-        # access is unchecked (undefined behaviour), so such inputs are only run in pure Python
-        unphased = [u and i < ts.num_edges for i, u in enumerate(unphased)]
+    # (inputs with an unphased individual id >= num_edges are ordinary cases in both tiers since
+    # the repair of defect S1, f3f9c6a: individuals_block is sized by num_individuals)
     size = int(ts.sequence_length) * max(1, ts.num_edges) * (max(1, ts.num_edges) + ts.num_mutations + 1)
     return ts, mask, unphased, kind, size <= 150000
 
@@ -196,11 +193,10 @@ def oracle_blocks(ctx, ts, unphased, kind, got):
     k8 = S.ref_blocks_k8(ts, unphased)
     any_lone = any(v["lone"] for v in spec.values())
     if got == "index-error":
-        if any(u and i >= ts.num_edges for i, u in enumerate(unphased)):
-            ctx.oracle_fail(S1_SIG, "individuals_block is allocated with num_edges entries; an unphased individual "
-                            "with id >= num_edges indexes it out of bounds", rp)
-        else:
-            ctx.oracle_fail("blocks:index-error", "block_singletons raised IndexError", rp)
+        oob = any(u and i >= ts.num_edges for i, u in enumerate(unphased))
+        ctx.oracle_fail("blocks:index-error" + (":individual-id>=num_edges" if oob else ""),
+                        "block_singletons raised IndexError on a valid input"
+                        + (" (an unphased individual id >= num_edges: the repaired defect S1 is back)" if oob else ""), rp)
         return
     if got == "assert":
         unfl = sum(v["unflushed"] for v in k8.values())
@@ -252,6 +248,8 @@ def run(ctx, model_ok=True):
     items = [make_item(ctx.rng, jit) for _ in range(n)]
     # corpus: the K8 input of DESIGN.md section 9
     items.insert(0, (k8_ts(), [True, True, False], [True], "corpus:K8", True))
+    # corpus: the input of the repaired defect S1 (more individuals than edges)
+    items.insert(1, (s1_ts(), [True] * 6 + [False], [False, False, True], "corpus:S1-fixed", True))
     gots = []
     for ts, mask, unphased, kind, small in items:
         try:
@@ -320,6 +318,26 @@ def k8_ts():
     for x, u in ((40, 0), (45, 0), (50, 0), (70, 1)):
         s = t.sites.add_row(x, "0")
         t.mutations.add_row(site=s, node=u, derived_state="1")
+    t.sort()
+    t.build_index()
+    t.compute_mutation_parents()
+    return t.tree_sequence()
+
+
+def s1_ts():
+    """three diploid individuals, two edges, individual 2 unphased (id >= num_edges): raised
+    IndexError before fix f3f9c6a"""
+    import tskit
+    t = tskit.TableCollection(10)
+    for _ in range(3):
+        t.individuals.add_row()
+    for u in range(6):
+        t.nodes.add_row(flags=1, time=0, individual=u // 2)
+    t.nodes.add_row(flags=0, time=1)
+    t.edges.add_row(0, 10, 6, 4)
+    t.edges.add_row(0, 10, 6, 5)
+    s = t.sites.add_row(3, "0")
+    t.mutations.add_row(site=s, node=4, derived_state="1")
     t.sort()
     t.build_index()
     t.compute_mutation_parents()
